@@ -1484,11 +1484,12 @@ def main():
         "C05_program_balanced_bounded (FULL with the bound in the statement: the 19866 enumerated skeleton programs of Lower/CompileBounded.v — every "
         "construct, every loop form, every exit from inner scopes, in main and in an inlined function — compile to accepted, hence balanced, code). "
         "C05_compile_ok + C05_program_balanced: FULL for the decidable fragment fprogram of Lower/CompileOk.v (expressions literal/variable/element/"
-        "unused temporaries/slice/Text concatenation/und-oder; statements declaration, expression statement, block, Wenn): compile emits accepted code, "
-        "every normally terminating run is balanced. "
+        "unused temporaries/slice/Text concatenation/und-oder; statements declaration, assignment to variables and elements, expression statement, "
+        "block, Wenn, Solange and Mache-Solange with break/continue from inner scopes): compile emits accepted code, every normally terminating run "
+        "is balanced. "
         "PARTIAL: C05_program_balanced_partial covers all skeleton programs whose compiled actions pass the extracted discipline (every generated stream-M "
-        "program does: statically_accepted_runs); the cases of cexpr_ok/cstmt_ok outside the fragment (falls, literals of containers, calls, assignment, "
-        "loops with break/continue, return — listed in Lower/CompileOk.v) are NOT proved. C05_old_concat_functions_refuted documents the repaired runtime defects on *_old definitions only. "
+        "program does: statically_accepted_runs); the cases of cexpr_ok/cstmt_ok outside the fragment (falls, literals of containers, calls and return, "
+        "Wiederhole, counting and for-each loops — listed in Lower/CompileOk.v) are NOT proved. C05_old_concat_functions_refuted documents the repaired runtime defects on *_old definitions only. "
         "Types other than Text / Text Liste are tied to the compiler only through the proved ledger checker and ASan, not through the ownership model."))
 
 
